@@ -25,6 +25,9 @@ ASSUMPTIONS = [
 KNOWN_ALABELS = {"bücher": "xn--bcher-kva", "é": "xn--9ca", "例え": "xn--r8jz45g", "жж": "xn--f1aa", "рф": "xn--p1ai", "ЖЖ": "xn--f1aa",
                  "BÜCHER": "xn--bcher-kva", "日本語": "xn--wgv71a119e"}
 
+# parts also run by 4 threads at once in one process (runner adds the jobs; see yv/ctx.py Ctx.threaded)
+SHARED = [("labels", {"n": 1200}, {"n": 25000})]
+
 
 def plan(tier, seed):
     thorough = tier == "thorough"
@@ -131,7 +134,17 @@ def run_ascii(ctx):
         ch = chr(o)
         for h in (f"a{ch}b", f"{ch}a", f"a{ch}"):
             legal = all(c in rfc.REG_NAME_CHARS for c in h)
-            for route, fn in (("build_host", lambda: URL.build(scheme="http", host=h)), ("with_host", lambda: base.with_host(h))):
+            routes = [("build_host", lambda: URL.build(scheme="http", host=h)), ("with_host", lambda: base.with_host(h))]
+            # receivers that ALREADY carry this very text as their host (the lenient parser / encoded=True let it in):
+            # with_host(h) must still validate and canonicalise h - "nothing changes" is not an excuse
+            for tag, mk in (("with_host_same_rcv", lambda: URL(f"http://{h}/p")), ("with_host_same_rcv_enc", lambda: URL(f"http://u@{h}:81/p", encoded=True)),
+                            ("with_host_same_rcv_upper", lambda: URL(f"http://{h.upper()}/p", encoded=True))):
+                rcv = guarded(mk)
+                if is_exc(rcv) or is_exc(guarded(lambda: rcv.raw_host)):
+                    ctx.count("same_host_receiver_unavailable")
+                    continue
+                routes.append((tag, lambda rcv=rcv: rcv.with_host(h)))
+            for route, fn in routes:
                 r = guarded(fn)
                 ctx.ev((route, "ascii", o, "exc" if is_exc(r) else "ok"))
                 case = {"route": route, "host": h}
@@ -153,6 +166,39 @@ def run_ascii(ctx):
                         ctx.fail("wrong_exception", case, f"{r!r}")
                     else:
                         ctx.count("rejected_ok")
+    # the same alphabet in ZONE position of an IP literal: the zone id goes into the authority verbatim, so a character
+    # outside the reg-name grammar there is exactly as hostile as in the name itself
+    for o in range(128):
+        ch = chr(o)
+        if ch in ":%":
+            continue
+        legal = ch in rfc.REG_NAME_CHARS
+        for h in (f"::1%z{ch}z", f"fe80::1%{ch}", f"fe80::a%eth0{ch}", f"1.2.3.4%{ch}1", f"::1%a{ch}:1", f"::1%{ch}]:x"):
+            if any(c not in rfc.REG_NAME_CHARS for c in h.partition("%")[2].replace(ch, "")):
+                # another illegal character is present anyway: must be rejected whatever ch is
+                legal_h = False
+            else:
+                legal_h = legal
+            for route, fn in (("build_host", lambda: URL.build(scheme="http", host=h)), ("with_host", lambda: base.with_host(h)), ("build_host_port", lambda: URL.build(scheme="ws", host=h, port=81, user="u")),
+                              ("with_host_on_ipv6", lambda: URL("http://u:p@[::2]:8080/p").with_host(h))):
+                r = guarded(fn)
+                ctx.ev((route, "zone", o, "exc" if is_exc(r) else "ok"))
+                case = {"route": route, "host": h}
+                if not legal_h:
+                    if not is_exc(r):
+                        ctx.fail("illegal_zone_char_accepted", case, f"raw_host={guarded(lambda: r.raw_host)!r} str={guarded(str, r)!r}")
+                    elif r.type != "ValueError":
+                        ctx.fail("wrong_exception", case, f"{r!r}")
+                    else:
+                        ctx.count("rejected_ok")
+                elif not is_exc(r):
+                    # accepted: the zone is kept verbatim, and the URL renders and re-parses to the same host
+                    rh = guarded(lambda: r.raw_host)
+                    back = guarded(lambda: URL(str(r)).raw_host)
+                    if is_exc(rh) or is_exc(back) or back != rh or not str(rh).endswith(h.partition("%")[2]):
+                        ctx.fail("zone_not_verbatim", case, f"raw_host={rh!r} re-parsed {back!r}")
+                    else:
+                        ctx.count("zone_kept")
     for h, ok in (("a%41b", True), ("a%zzb", False), ("a%4", False), ("a%", False), ("%41", True), ("a%4gb", False)):
         for route, fn in (("build_host", lambda: URL.build(scheme="http", host=h)), ("with_host", lambda: base.with_host(h))):
             r = guarded(fn)
